@@ -27,7 +27,7 @@ RULE = ("designs from a seeded generator: module trees of depth <= 3 (some modul
         "i/o/io ports, parameters (int, negative, >= 2^31, str with escapes, float, Const) and attributes, I/O buffers on IOPorts, "
         "lib.memory.Memory with sync/comb read ports and write ports; plus a fixed list of hand-written designs. Every emitted "
         "document is validated by wf_doc. Negative corpus: hand-corrupted texts and single-point corruptions of emitted documents "
-        "(dangling wire, width mismatch, double driver, undriven wire, driven input, missing/extra port, duplicate name, sparse port "
+        "(dangling wire, width mismatch incl. a process assignment widened in the emitted text, double driver, undriven wire, driven input, missing/extra port, duplicate name, sparse port "
         "index, unknown module, wrong instance parameter) that wf_doc must reject. _add_name sequences: exhaustive over a 4-name "
         "alphabet up to length 4 + random. non-trivial = the document has >= 1 cell or process and >= 2 wires (design), any corrupted "
         "document, any name sequence with a repeated name; distinct by case hash")
@@ -62,7 +62,7 @@ class Built:
 def build(D):
     """description -> (top Module, ports argument, Built info with the real objects)."""
     from amaranth.hdl import (Module, Signal, Const, Cat, Mux, IOPort, Instance, IOBufferInstance, ClockDomain, signed, unsigned,
-                              Print, Assert, Format, ClockSignal, ResetSignal)
+                              Print, Assert, Format, ClockSignal, ResetSignal, Array)
     from amaranth.hdl._ir import PortDirection
     from amaranth.lib.memory import Memory
     B = Built()
@@ -103,6 +103,12 @@ def build(D):
         if k == "part":
             v, off = ex(e[1]), ex(e[2]).as_unsigned()
             return v.bit_select(off, e[3]) if e[4] == "bit" else v.word_select(off, e[3])
+        if k == "arr":
+            return Array([ex(x) for x in e[1]])[ex(e[2])]
+        if k == "as_s":
+            return ex(e[1]).as_signed()
+        if k == "as_u":
+            return ex(e[1]).as_unsigned()
         if k == "mr":
             return B.mems[e[1]][1][e[2]].data
         if k == "clk":
@@ -736,12 +742,75 @@ def _lhs(rng, D, i):
     return ["s", i]
 
 
-def _stmts(rng, D, targets, avail, depth):
-    """statement list assigning the signals `targets`"""
+def _rich_lhs(rng, D, pool, avail, depth):
+    """assignment target over the signals `pool` (each used at most once per target): nested slices, part-selects whose
+    window can overhang the MSB end, concatenations with zero-width pieces, arrays of elements of different widths,
+    as_signed/as_unsigned"""
+    if not pool:
+        return None
+    if depth <= 0 or rng.random() < 0.15:
+        return ["s", rng.choice(pool)]
+    r = rng.random()
+    if r < 0.08:
+        a = _rich_lhs(rng, D, pool, avail, depth - 1)
+        return [rng.choice(["as_s", "as_u"]) if _width(D, a) > 0 else "as_u", a]
+    if r < 0.25:
+        a = _arr_lhs(rng, D, pool, avail, depth - 1) if rng.random() < 0.5 else _rich_lhs(rng, D, pool, avail, depth - 1)
+        w = _width(D, a)
+        lo = rng.randrange(0, w + 1)
+        hi = rng.randrange(lo, w + 1)
+        if rng.random() < 0.4:
+            hi = w                      # window at the MSB end
+        return ["sl", a, lo, hi]
+    if r < 0.55:
+        a = _arr_lhs(rng, D, pool, avail, depth - 1) if rng.random() < 0.5 else _rich_lhs(rng, D, pool, avail, depth - 1)
+        kind = rng.choice(["bit", "word"])
+        pw = rng.randrange(0, 5) if kind == "bit" else rng.randrange(1, 4)
+        return ["part", a, _sel(rng, D, avail, 3), pw, kind]
+    if r < 0.68:
+        k = rng.randrange(1, 4)
+        pool = list(pool)
+        rng.shuffle(pool)
+        parts = []
+        for j in range(k):
+            sub = pool[j::k]
+            if sub:
+                parts.append(_rich_lhs(rng, D, sub, avail, depth - 1))
+            if rng.random() < 0.25:
+                parts.append(["sl", ["s", rng.choice(pool)], 0, 0])          # zero-width piece
+        parts = [p for p in parts if p is not None] or [["s", pool[0]]]
+        return ["cat", parts]
+    return _arr_lhs(rng, D, pool, avail, depth)
+
+
+def _arr_lhs(rng, D, pool, avail, depth):
+    """Array([...])[index] target whose elements have different widths (a window selected from it can overhang the
+    narrower elements)"""
+    elems = [_rich_lhs(rng, D, pool, avail, depth - 1) for _ in range(rng.randrange(1, 4))]
+    if len(elems) >= 2 and len({_width(D, x) for x in elems}) == 1 and D["sigs"][pool[0]]["w"] > 0:
+        elems[0] = ["sl", elems[0], 0, max(0, _width(D, elems[0]) - 1)]     # force elements of different widths
+    return ["arr", elems, _sel(rng, D, avail, 2)]
+
+
+def _sel(rng, D, avail, maxw):
+    """a narrow unsigned selector / offset expression"""
+    cands = [i for i in avail if not D["sigs"][i]["s"] and D["sigs"][i]["w"] >= 1]
+    if cands and rng.random() < 0.85:
+        i = rng.choice(cands)
+        w = D["sigs"][i]["w"]
+        return ["s", i] if w <= maxw else ["sl", ["s", i], 0, rng.randrange(1, maxw + 1)]
+    w = rng.randrange(0, maxw + 1)
+    return ["c", rng.randrange(0, 1 << w) if w else 0, w, False]
+
+
+def _stmts(rng, D, targets, avail, depth, rich=False):
+    """statement list assigning the signals `targets` (rich: through _rich_lhs targets over all of them)"""
     out = []
     for _ in range(rng.randrange(1, 3)):
         r = rng.random()
-        if r < 0.55 or depth <= 0:
+        if rich and (r < 0.7 or depth <= 0):
+            out.append(["eq", _rich_lhs(rng, D, targets, avail, 3), _expr(rng, D, avail, 1)])
+        elif r < 0.55 or depth <= 0:
             t = rng.choice(targets)
             if len(targets) >= 2 and rng.random() < 0.1:
                 t2 = rng.choice([x for x in targets if x != t])
@@ -749,16 +818,16 @@ def _stmts(rng, D, targets, avail, depth):
             else:
                 out.append(["eq", _lhs(rng, D, t), _expr(rng, D, avail, 2)])
         elif r < 0.75:
-            out.append(["if", _expr(rng, D, avail, 1), _stmts(rng, D, targets, avail, depth - 1),
-                        _stmts(rng, D, targets, avail, depth - 1) if rng.random() < 0.5 else None])
+            out.append(["if", _expr(rng, D, avail, 1), _stmts(rng, D, targets, avail, depth - 1, rich),
+                        _stmts(rng, D, targets, avail, depth - 1, rich) if rng.random() < 0.5 else None])
         elif r < 0.9:
             e = _expr(rng, D, avail, 1)
             w = _width(D, e)
             cases = []
             for _ in range(rng.randrange(0, 3)):
                 pats = ["".join(rng.choice("01-") for _ in range(w)) for _ in range(rng.randrange(0, 3))]
-                cases.append([pats, _stmts(rng, D, targets, avail, depth - 1)])
-            out.append(["sw", e, cases, _stmts(rng, D, targets, avail, depth - 1) if rng.random() < 0.5 else None])
+                cases.append([pats, _stmts(rng, D, targets, avail, depth - 1, rich)])
+            out.append(["sw", e, cases, _stmts(rng, D, targets, avail, depth - 1, rich) if rng.random() < 0.5 else None])
         elif r < 0.95:
             out.append(["print", _expr(rng, D, avail, 1)])
         else:
@@ -776,8 +845,14 @@ def _width(D, e):
 
 
 def _ex_width(D, e, sigs):
-    from amaranth.hdl import Const, Cat, Mux, signed, unsigned
+    from amaranth.hdl import Const, Cat, Mux, signed, unsigned, Array
     k = e[0]
+    if k == "arr":
+        return Array([_ex_width(D, x, sigs) for x in e[1]])[_ex_width(D, e[2], sigs)]
+    if k == "as_s":
+        return _ex_width(D, e[1], sigs).as_signed()
+    if k == "as_u":
+        return _ex_width(D, e[1], sigs).as_unsigned()
     if k == "s":
         return sigs[e[1]]
     if k == "c":
@@ -996,6 +1071,17 @@ def gen_design(rng, dollar=False):
             D["sigs"].append({"n": rng.choice(pool), "w": w, "s": False, "i": 0})
             t = len(D["sigs"]) - 1
             D["mods"][rng.randrange(nm)]["st"].append(["comb", [["eq", ["s", t], ["mr", "m0", j]]]])
+    # rich assignment targets: each group has its own fresh target signals (of different widths, some zero-width),
+    # one owner (module, domain); offsets / indices / right-hand sides read only registers and undriven signals
+    for _ in range(rng.choice([1, 1, 2])):
+        mo = rng.randrange(nm)
+        dom = rng.choice(["comb", "comb"] + doms)
+        tids = []
+        for _k in range(rng.randrange(2, 5)):
+            w = rng.choice([0, 1, 2, 3, 3, 4, 5])
+            D["sigs"].append({"n": rng.choice(pool), "w": w, "s": w >= 1 and rng.random() < 0.25, "i": 0})
+            tids.append(len(D["sigs"]) - 1)
+        D["mods"][mo]["st"].append([dom, _stmts(rng, D, tids, sync_ids + in_ids, 2, rich=True)])
     # ports
     taken = set()
     for i in range(len(D["sigs"])):
@@ -1089,6 +1175,12 @@ def fixed_designs():
                          M(items=[["buf", {"port": ["io", 1], "i": None, "o": ["s", 1], "oe": None}, None],
                                   ["buf", {"port": ["io", 2], "i": ["s", 4], "o": ["s", 3], "oe": ["s", 2]}, "b"]])],
                 "ports": [["s", 0, None, None], ["s", 1, None, None], ["s", 2, None, None], ["s", 3, None, None], ["s", 4, None, None]]})
+    # Array of elements of different widths, dynamic part-select overhanging the narrower element (comb and sync)
+    out.append({"sigs": [S("a", 3), S("b", 4), S("idx", 1), S("off", 2), S("v", 2), S("c", 3), S("d", 5, True)], "ios": [],
+                "mods": [M(st=[["comb", [["eq", ["part", ["arr", [["s", 0], ["s", 1]], ["s", 2]], ["s", 3], 2, "bit"], ["s", 4]]]],
+                               ["sync", [["eq", ["part", ["arr", [["s", 5], ["sl", ["as_u", ["s", 6]], 1, 5]], ["s", 2]], ["s", 3], 2, "word"], ["s", 4]],
+                                         ["eq", ["sl", ["cat", [["s", 5], ["s", 6]]], 2, 8], ["s", 1]]]]])],
+                "ports": [["s", i, None, None] for i in range(7)]})
     # memory with two write ports and transparent read port, comb read port
     out.append({"sigs": [S("a", 2), S("d", 8), S("e", 1), S("r1", 8), S("r2", 8)], "ios": [],
                 "mods": [M(items=[["mem", {"key": "m0", "w": 8, "d": 4, "init": [1, 2, 3], "wr": ["sync", "sync"],
@@ -1302,6 +1394,19 @@ def gen_cases(tier, seed):
         made += 1
         if err is None and len(mut_pool) < n_mut_src and (made % 7 == 0):
             mut_pool.append(D)
+    import re
+    n_text = 0
+    for D in mut_pool:
+        _st, text, doc, ex, _err = analyse(D)
+        lines = text.split("\n")
+        cand = [i for i, l in enumerate(lines) if re.match(r"^\s+assign \S", l) and not l.rstrip().endswith("{  }")]
+        if cand:
+            i = rng.choice(cand)
+            m = re.match(r"^(\s+assign )(\{.*?\}|\S+(?: \[[0-9:]+\])?) (.*)$", lines[i])
+            if m:
+                lines[i] = f"{m.group(1)}{m.group(2)} {{ 1'0 {m.group(3)} }}"
+                cases.append({"kind": "neg", "why": "mut-text-assign-width", "text": "\n".join(lines), "ex": ex})
+                n_text += 1
     for D in mut_pool:
         _st, _text, doc, ex, _err = analyse(D)
         muts = mutate(rng, doc, ex)
